@@ -421,6 +421,7 @@ func runC04(c *mon.Ctx) {
 	c04DuplicateMembers(c)
 	c04RequiredMembers(c)
 	c04NotJSON(c)
+	c04UnpairedSurrogates(c)
 	c.Floor("hash_failing_cases", 200)
 	c.Floor("hash_matching_cases", 100)
 	c.Floor("redactable_only_cases", 100)
@@ -555,6 +556,60 @@ func c04NotJSON(c *mon.Ctx) {
 						return
 					}
 					c.Failf("untrusted:accepts-text-that-is-not-json:"+name, "v%s: NewEventFromUntrustedJSON returns an event (ID %s, unsigned %s) for a text that is not JSON\n%s", ver, p.EventID(), p.Unsigned(), text)
+				})
+			}
+		}
+	}
+}
+
+// c04UnpairedSurrogates: the escape of half a surrogate pair put into a content value (a redactable one) of a signed
+// event is a change to the hashed fields like any other - every decoder reads U+FFFD there: the event is refused or
+// comes back as its redacted form, never unredacted with the altered content.
+func c04UnpairedSurrogates(c *mon.Ctx) {
+	id := gen.NewIdentity(c.RandShared("id"), "a.example", "ed25519:k1")
+	for vi, ver := range sortedVersions() {
+		t := ref.Traits(string(ver))
+		if t == nil || !c.Mine(vi) {
+			continue
+		}
+		impl := gmsl.MustGetRoomVersion(ver)
+		ps := protoSpec{Type: "m.room.message", Sender: "@u:a.example", RoomID: "!r:a.example", Content: []byte(`{"body":"pay 1","msgtype":"m.text","nested":{"k":"v"}}`), Depth: 5}
+		if t.Domainless {
+			ps.RoomID = "!" + strings.Repeat("A", 43)
+		}
+		ev, err := buildEvent(ver, ps, id, baseTime)
+		if err != nil {
+			c.Note("unpaired-surrogate scenario: cannot build the event for v%s: %v", ver, err)
+			continue
+		}
+		orig := string(ev.JSON())
+		for _, esc := range []string{`\udead`, `\ud800`, `\uDFFF`} {
+			for kind, text := range map[string]string{
+				"appended-to-content-value": strings.Replace(orig, `"pay 1"`, `"pay 1`+esc+`"`, 1),
+				"in-nested-content-value":   strings.Replace(orig, `"k":"v"`, `"k":"`+esc+`v"`, 1),
+				"in-content-member-name":    strings.Replace(orig, `"msgtype"`, `"msgtype`+esc+`"`, 1),
+			} {
+				c.Case("unpaired-surrogate:"+kind+":"+string(ver), map[string]any{"version": ver, "escape": esc, "text": text}, func() {
+					c.Nontrivial(string(ver) + "|surrogate|" + kind + "|" + esc)
+					c.Count("unpaired_surrogate_cases")
+					if text == orig {
+						c.Failf("harness:surrogate-tampering-did-not-apply", "%s v%s", kind, ver)
+						return
+					}
+					var p gmsl.PDU
+					var err error
+					site, msg, pan := mon.Guard(func() { p, err = impl.NewEventFromUntrustedJSON([]byte(text)) })
+					if pan {
+						c.Failf("untrusted:panic:"+site, "NewEventFromUntrustedJSON panics: %s", msg)
+						return
+					}
+					if err != nil || p == nil {
+						c.Count("unpaired_surrogate_refused")
+						return
+					}
+					if !p.Redacted() {
+						c.Failf("hashmatch:altered-content-returned-unredacted:unpaired-surrogate-"+kind, "v%s: an event whose content was altered by putting in the escape %s is returned unredacted (ID %s), content %s", ver, esc, p.EventID(), p.Content())
+					}
 				})
 			}
 		}
